@@ -2255,7 +2255,11 @@ class Engine:
             t = self.fresh('pair_' + g.target.id)
             e2 = dict(env)
             e2[g.target.id] = toz(it.lo) + t
-            a, b = self.eval(e.elt.elts[0], e2), self.eval(e.elt.elts[1], e2)
+            self.generic_elem = getattr(self, 'generic_elem', 0) + 1
+            try:
+                a, b = self.eval(e.elt.elts[0], e2), self.eval(e.elt.elts[1], e2)
+            finally:
+                self.generic_elem -= 1
             n = z3.simplify(zmax(toz(it.hi) - toz(it.lo), z3.IntVal(0)))
             return VPairs(n, z3.Lambda([t], toz(a)), z3.Lambda([t], toz(b)))
         if isinstance(it, VRange) and it.step == 1 and isinstance(g.target, ast.Name):
@@ -2311,10 +2315,12 @@ class Engine:
             e2[g.target.elts[1].id] = sel(it.second, t)
             saved = len(self.pc)
             self.pc.append(z3.And(t >= 0, t < toz(it.length)))
+            self.generic_elem = getattr(self, 'generic_elem', 0) + 1
             try:
                 body = self.eval(e.elt, e2)
             finally:
                 del self.pc[saved:]
+                self.generic_elem -= 1
             if is_z3(body) and z3.is_int(body):
                 tc = z3.Int('lam!j')
                 return VArr(it.length, z3.Lambda([tc], z3.substitute(body, (t, tc))))
@@ -2325,10 +2331,12 @@ class Engine:
             e2[g.target.id] = z3.Select(it.arr, t)
             saved = len(self.pc)
             self.pc.append(z3.And(t >= 0, t < toz(it.length)))
+            self.generic_elem = getattr(self, 'generic_elem', 0) + 1
             try:
                 body = self.eval(e.elt, e2)
             finally:
                 del self.pc[saved:]
+                self.generic_elem -= 1
             if isinstance(body, bool):
                 body = z3.IntVal(int(body))
             if is_z3(body) and z3.is_bool(body):
@@ -2753,6 +2761,14 @@ class Engine:
             res = self.fresh_of_type('ret_' + key[1], c['returns'])
             if isinstance(res, VObj):
                 self.created.setdefault(res.cls, []).append(res)
+            if getattr(self, 'generic_elem', 0) or getattr(self, 'demonic', None) is not None:
+                # inside the element of a comprehension evaluated ONCE for a generic index: the callee's result is a different
+                # value per index.  An int / bool result becomes a per-index value (like a demonic library result); anything else
+                # is outside the model (one shared fresh value for all indices would be unsound).
+                if getattr(self, 'demonic', None) is not None and is_z3(res) and z3.is_const(res):
+                    self.demonic.append(res)
+                else:
+                    raise Unsupported('call of {} (fresh result) inside a comprehension element evaluated for a generic index'.format(key[1]))
         post_env = dict(env)
         post_env['__old__'] = old
         post_env['result'] = res
